@@ -508,6 +508,7 @@ pub fn run_c09(run: &mut Run) -> anyhow::Result<()> {
     for i in 0..(if q { 40 } else { 1500 }) {
         network_history(run, &mut rng, 10_000 + i)?;
     }
+    crate::peers::blocked_handler(run, if q { 1 } else { 4 }, "listing")?;
     let p = crate::streams::PANICS.load(std::sync::atomic::Ordering::SeqCst);
     if p > 0 {
         run.oracle_fail(json!({"kind": "panic during view histories", "count": p}));
